@@ -16,7 +16,7 @@ class TapeNames(object):
         self.variants = prog.variant_names(self.TS)
 
     def method(self, name):
-        c = [q for q in self.prog.fns if q.startswith("rustzx_core::<") and "tap::Tap<A>" in q and q.endswith("::" + name)]
+        c = [q for q in self.prog.fns if q.startswith("<rustzx_core::") and "tap::Tap<A>" in q and q.endswith("::" + name)]
         if len(c) != 1:
             raise KeyError("anchor: Tap::%s not unique: %s" % (name, c))
         return c[0]
